@@ -66,6 +66,27 @@ impl<T: Heap> Heap for std::rc::Rc<T> {
     }
 }
 
+/// A user type with its own estimator and no niche (integers only), so that `Option<Blob>`
+/// is larger than `Blob`: it reports `bytes` of owned memory beyond its inline size.
+#[derive(Debug, Clone)]
+pub struct Blob {
+    pub id: u64,
+    pub bytes: usize,
+}
+impl MemoryEstimator for Blob {
+    fn estimate_memory(&self) -> usize {
+        size_of::<Self>() + self.bytes
+    }
+}
+impl Heap for Blob {
+    fn heap(&self) -> usize {
+        self.bytes
+    }
+}
+fn gb(d: &mut Dec) -> Blob {
+    Blob { id: d.u32() as u64, bytes: [0usize, 1, 7, 8, 84, 100, 1000][d.choose(7)] }
+}
+
 fn footprint<T: Heap>(v: &T) -> usize {
     size_of::<T>() + v.heap()
 }
@@ -93,7 +114,7 @@ fn check<T: Heap + MemoryEstimator + std::fmt::Debug>(shape: &'static str, v: T)
     (format!("{:?}", v).chars().take(120).collect(), v.estimate_memory(), footprint(&v), shape)
 }
 
-const N_SHAPES: usize = 34;
+const N_SHAPES: usize = 41;
 
 fn build(d: &mut Dec) -> (String, usize, usize, &'static str) {
     match d.choose(N_SHAPES) {
@@ -130,6 +151,13 @@ fn build(d: &mut Dec) -> (String, usize, usize, &'static str) {
         30 => check("Option<Arc<String>>", if d.chance(2, 3) { Some(std::sync::Arc::new(gs(d))) } else { None }),
         31 => check("Vec<Box<String>>", gv(d, |d| Box::new(gs(d)))),
         32 => check("(String, Option<Vec<u64>>, Result<String, String>)", (gs(d), if d.chance(1, 2) { Some(gv(d, |d| d.u64())) } else { None }, if d.chance(1, 2) { Ok::<String, String>(gs(d)) } else { Err(gs(d)) })),
+        33 => check("Blob (user type)", gb(d)),
+        34 => check("Option<Blob>", if d.chance(3, 4) { Some(gb(d)) } else { None }),
+        35 => check("Vec<Option<Blob>>", gv(d, |d| if d.chance(3, 4) { Some(gb(d)) } else { None })),
+        36 => check("(Blob, u8)", (gb(d), d.byte())),
+        37 => check::<Result<Blob, u32>>("Result<Blob,u32>", if d.chance(1, 2) { Ok(gb(d)) } else { Err(d.u32()) }),
+        38 => check("Option<(Blob, String)>", if d.chance(3, 4) { Some((gb(d), gs(d))) } else { None }),
+        39 => check("Box<Option<Blob>>", Box::new(if d.chance(3, 4) { Some(gb(d)) } else { None })),
         _ => check::<Result<(String, String), Vec<String>>>("Result<(String,String),Vec<String>>", if d.chance(1, 2) { Ok((gs(d), gs(d))) } else { Err(gv(d, gs)) }),
     }
 }
